@@ -230,14 +230,41 @@ func c05Run(w *W) {
 				q.pipeOpenAtSend = q.pipe.Open()
 			}
 			call := w.Do(fmt.Sprintf("ctx%d.SendMsg", c.idx), func() (interface{}, error) { return nil, sendMsg(c, m) })
+			// now and then two goroutines answer the same request at once: in
+			// any order of the two, the second one has no request pending
+			var call2 *Call
+			var m2 *mangos.Message
+			if !raw && q != nil && a%4 == 3 {
+				m2 = mangos.NewMessage(len(body))
+				m2.Body = append(m2.Body, body...)
+				call2 = w.Do(fmt.Sprintf("ctx%d.SendMsg(second goroutine)", c.idx), func() (interface{}, error) { return nil, sendMsg(c, m2) })
+			}
 			w.Settle()
-			if !call.Returned() {
+			if !call.Returned() || (call2 != nil && !call2.Returned()) {
 				call.Wait(50 * time.Millisecond)
+				if call2 != nil {
+					call2.Wait(50 * time.Millisecond)
+				}
 				w.Settle()
 			}
-			if !call.Returned() {
+			if !call.Returned() || (call2 != nil && !call2.Returned()) {
 				w.Failf("C18/late", "%s SendMsg with 10ms deadline still pending", kind)
 				return
+			}
+			if call2 != nil {
+				w.Op("ctx%d two concurrent Sends of %s -> %v, %v", c.idx, body, errName(call.Err), errName(call2.Err))
+				w.Probe("two-goroutines-answer-one-request")
+				if call.Err == nil && call2.Err == nil {
+					w.Failf("C05/two-replies-to-one-request", "%s ctx%d received request %s once; two goroutines then called Send at the same time and both succeeded - in either order the second had no request pending", kind, c.idx, q.tag)
+					return
+				}
+				// carry on with whichever succeeded
+				if call.Err != nil && call2.Err == nil {
+					m.Free()
+					call, m = call2, m2
+				} else {
+					m2.Free()
+				}
 			}
 			w.Op("ctx%d Send %s -> %v", c.idx, body, errName(call.Err))
 			if q == nil {
